@@ -293,7 +293,11 @@ def repo_case(ctx, drv, gfm, gmm):
         # ... also when the generator runs over its own output after a few edits (the periodic run on a live tree: the split
         # top level Manifest + Manifest.files.gz of the earlier run is there)
         if p.returncode == 0 and rng.random() < 0.7:
+            keep_cat = open(os.path.join(root2, 'profiles', 'categories'), 'rb').read() if os.path.isfile(os.path.join(root2, 'profiles', 'categories')) else None
             edits2 = edit(rng, root2)
+            if keep_cat is not None and not os.path.isfile(os.path.join(root2, 'profiles', 'categories')):
+                # the generator needs profiles/categories (without it the tree is no ebuild repository any more)
+                open(os.path.join(root2, 'profiles', 'categories'), 'wb').write(keep_cat)
             p2 = subprocess.run([sys.executable, os.path.join(REPO, 'utils', 'gen_fast_metamanifest.py'), root2],
                                 stdout=subprocess.PIPE, stderr=subprocess.STDOUT, timeout=300)
             scen_r = dict(scen, regenerated=True, edits=edits2)
